@@ -20,7 +20,7 @@ def is_sym(a):
 
 
 STRUCTURAL = {
-    "broadcast_in_dim", "reshape", "transpose", "squeeze", "concatenate", "slice", "gather", "tile",
+    "stack", "broadcast_in_dim", "reshape", "transpose", "squeeze", "concatenate", "slice", "gather", "tile",
     "expand_dims", "rev", "dynamic_slice", "scatter", "dynamic_update_slice", "pad", "split", "copy",
     "copy_p", "select_n", "scatter-add_DISABLED",
 }
@@ -109,11 +109,19 @@ class Interp:
         for v, a in zip(jaxpr.invars, args):
             env[v] = a
         for eqn in jaxpr.eqns:
-            invals = [read(v) for v in eqn.invars]
+            try:
+                invals = [read(v) for v in eqn.invars]
+            except KeyError as ke:
+                raise RuntimeError(f"unbound variable {ke} read by equation {eqn.primitive.name} params={list(eqn.params)}")
             outs = self.eval_eqn(eqn, invals)
             if not eqn.primitive.multiple_results:
                 outs = [outs]
+            if len(outs) != len(eqn.outvars):
+                raise RuntimeError(f"{eqn.primitive.name}: produced {len(outs)} outputs, jaxpr expects {len(eqn.outvars)}")
             for v, o in zip(eqn.outvars, outs):
+                shp = getattr(v.aval, "shape", None)
+                if shp is not None and tuple(np.shape(o)) != tuple(shp):
+                    raise RuntimeError(f"{eqn.primitive.name} ({eqn.params.get('name', '')}): output shape {np.shape(o)} != aval {shp}")
                 env[v] = o
         return [read(v) for v in jaxpr.outvars]
 
@@ -145,18 +153,19 @@ class Interp:
                 r = self.hooks[fname](self, eqn, invals)
                 if r is not NotImplemented:
                     return r
-            if fname == "slogdet" and anysym:
+            nout = len(eqn.outvars)
+            if fname == "slogdet" and anysym and nout == 2:
                 self.stub("slogdet -> (1, 1/2 ln det^2)")
                 return self.slogdet(invals[0])
             if fname == "_cholesky" and anysym:
                 out = self.eval_jaxpr(cj.jaxpr, cj.consts, *invals) if hasattr(cj, "consts") else self.eval_jaxpr(cj, [], *invals)
                 self.chol_tags[id(out[0])] = (out[0], invals[0])
                 return out
-            if fname == "_cho_solve" and anysym and id(invals[0]) in self.chol_tags:
+            if fname == "_cho_solve" and anysym and nout == 1 and id(invals[0]) in self.chol_tags:
                 A = self.chol_tags[id(invals[0])][1]
                 self.stub("cho_solve(cho_factor(A),B) -> adj(A)/det(A) B")
                 return [self.spd_solve(self.lift_arr(A), self.lift_arr(invals[1]))]
-            if fname == "_normal" and self.fresh_normals is not None:
+            if fname == "_normal" and nout == 1 and self.fresh_normals is not None:
                 self.stub("jax.random.normal -> fresh symbolic array")
                 return [self.fresh_normals(eqn.outvars[0].aval.shape)]
             if hasattr(cj, "consts"):
@@ -378,14 +387,44 @@ class Interp:
             if lb[k] is None:
                 lb[k] = next(letters); fb.append(lb[k])
         spec = f"{''.join(la)},{''.join(lb)}->{''.join(batch + fa + fb)}"
-        out = np.einsum(spec, a, b)
+        try:
+            out = np.einsum(spec, a, b)
+        except ValueError as ex:
+            raise RuntimeError(f"dot_general einsum {spec} on shapes {a.shape} {b.shape}: {ex}")
         if not isinstance(out, np.ndarray):
             o = np.empty((), dtype=object); o[()] = out; out = o
         return out
 
+    def p_scatter_add(self, i, p, e):
+        """operand + (0/1 incidence of updates) . updates ; the incidence comes from JAX itself:
+        scatter-add is linear, so its Jacobian w.r.t. the updates at zero is that 0/1 tensor"""
+        operand, indices, updates = i
+        if is_sym(indices):
+            raise Unsupported("scatter-add with symbolic indices")
+        operand = self.lift_arr(operand); updates = self.lift_arr(updates)
+        prim = e.primitive
+        zo = jnp.zeros(operand.shape); zu = jnp.zeros(updates.shape)
+        J = np.asarray(jax.jacobian(lambda u: prim.bind(zo, jnp.asarray(indices), u, **p))(zu))
+        J = J.reshape(operand.shape + (updates.size,))
+        uf = updates.reshape(-1)
+        out = np.empty(operand.shape, dtype=object)
+        for idx in np.ndindex(*operand.shape):
+            t = operand[idx]
+            row = J[idx]
+            for k in np.nonzero(row)[0]:
+                t = t + (uf[k] if row[k] == 1 else uf[k] * self.ctx.lift(float(row[k])))
+            out[idx] = t
+        return out
+
     # ---- control flow
     def p_scan(self, i, p, e):
-        nc, ncar = p["num_consts"], p["num_carry"]
+        if "num_consts" in p:
+            nc, ncar = p["num_consts"], p["num_carry"]
+        else:   # newer JAX: flat-tree descriptions (consts, carry, xs)
+            parts = p["ft_in"].unpack() if hasattr(p["ft_in"], "unpack") else p["ft_in"]
+            nc, ncar, nxs = (len(t) for t in parts)
+            if nc + ncar + nxs != len(i):
+                raise Unsupported(f"scan: cannot split {len(i)} operands as consts/carry/xs = {nc}/{ncar}/{nxs}")
         length = p["length"]
         cj = p["jaxpr"]
         consts = i[:nc]
@@ -409,7 +448,7 @@ class Interp:
                 items = [self.lift_arr(x) for x in items]
                 arr = np.empty((length,) + items[0].shape, dtype=object)
                 for t, it in enumerate(items):
-                    arr[t] = it
+                    arr[t] = it[()] if it.shape == () else it
             else:
                 arr = np.stack([np.asarray(x) for x in items]) if items else np.zeros((0,))
             ys.append(arr)
@@ -532,9 +571,11 @@ class Interp:
         return inv, d
 
     def spd_solve(self, A, B):
+        batch = np.broadcast_shapes(A.shape[:-2], B.shape[:-2])
+        A = np.broadcast_to(A, batch + A.shape[-2:])
+        B = np.broadcast_to(B, batch + B.shape[-2:])
         out = np.empty(B.shape, dtype=object)
-        A = np.broadcast_to(A, B.shape[:-2] + A.shape[-2:])
-        for bidx in np.ndindex(A.shape[:-2]):
+        for bidx in np.ndindex(*batch):
             inv, _ = self.inverse(A[bidx])
             out[bidx] = inv.dot(B[bidx])
         return out
